@@ -45,12 +45,13 @@ def main(tier, replay):
     stats, mism, pfails, stress, samples, classes, passes = {}, [], [], [], [], {}, {}
     stress_crash = None
     script_stats = {}
+    consumer_stats = {}
     distinct = 0
     if okg and okm:
         err = None
         if replay:
             case = json.load(open(replay)).get("case") or ["", ""]
-            if case[0] == "stress" or case[1][:1] in ("L", "U", "X", "M"):
+            if case[0] == "stress" or case[1][:1] in ("L", "U", "X", "M", "b", "c"):
                 rc, lines = 0, ""
             else:
                 rc, lines = vlib.sh([exe, "replay", case[0], case[1]], env=env, timeout=300)
@@ -86,6 +87,39 @@ def main(tier, replay):
                         pfails.append(f[2:])
                     elif f[0] == "COUNT" and f[1].startswith("script:"):
                         classes[f[1]] = int(f[2])
+        # consumer tier: the caller contract the theorems assume, checked on the real KVTxn.Commit over mocktikv with
+        # store-local latches enabled; same script protocol, modelrun plays a contract-following client
+        if err is None:
+            okt, exet = vlib.go_build("latchtxn")
+            if not okt:
+                v.violation({"kind": "harness-build", "correspondence": "consumer driver latchtxn (KVTxn.Commit over mocktikv) build against the current tree", "error": exet}, has_input=False)
+            else:
+                if replay and case[0] != "stress" and case[1][:1] in ("b", "c"):
+                    rc, tx_lines = vlib.sh([exet, "replay", case[0], case[1]], env=env, timeout=600)
+                elif replay:
+                    rc, tx_lines = 0, ""
+                else:
+                    rc, tx_lines = vlib.sh([exet], env=env, timeout=1500)
+                if rc != 0:
+                    v.violation({"kind": "property-oracle", "oracle": "C17_caller_contract (consumer crash)", "case": ["consumer", "seed=%d" % vlib.SEED],
+                                 "detail": tx_lines[-900:], "what": "the consumer driver (KVTxn.Commit with local latches over mocktikv) crashed"})
+                elif tx_lines:
+                    rc, cmp3 = vlib.sh([modelrun], inp=tx_lines, timeout=1500)
+                    if rc != 0:
+                        err = "modelrun (consumer) failed: " + cmp3[-600:]
+                    else:
+                        for l in cmp3.splitlines():
+                            f = l.split("\t")
+                            if f[0] == "STATS":
+                                consumer_stats.update({x.split("=")[0]: int(x.split("=")[1]) for x in f[1:]})
+                            elif f[0] == "MISMATCH":
+                                mism.append(f[1:])
+                            elif f[0] == "PROPFAIL":
+                                pfails.append(f[2:])
+                            elif f[0] == "PS":
+                                passes[f[1]] = passes.get(f[1], 0) + int(f[2])
+                            elif f[0] == "COUNT" and f[1].startswith("script:"):
+                                classes["consumer:" + f[1][7:]] = int(f[2])
         sout, stress_crash = "", None
         if err is None:
             rc, sout = vlib.sh([exe, "stress"], env=env, timeout=1500)
@@ -154,15 +188,16 @@ def main(tier, replay):
     if proof_broken:
         v.violation({"kind": "proof", "theorem_or_file": gate["problems"], "what": "Coq obligations no longer check"}, has_input=False)
     nstress = sum(int(x) for st in stress for x in re.findall(r"ok=(\d+)", st[1])) + sum(int(x) for st in stress for x in re.findall(r"stale=(\d+)", st[1]))
-    cov.update(evaluations=stats.get("edges", 0) + script_stats.get("edges", 0) + sum(passes.values()) + nstress,
+    cov.update(evaluations=stats.get("edges", 0) + script_stats.get("edges", 0) + consumer_stats.get("edges", 0) + sum(passes.values()) + nstress,
                distinct_nontrivial=distinct,
                states=stats.get("nodes", 0), transitions=stats.get("edges", 0),
                exhaustive=(stats.get("trunc", 1) == 0),
-               rule="DFS with state hashing over every interleaving of the atomic steps (thread acquireSlot, unlock, scheduler pop / releaseSlot / wake-up acquireSlot, recycle) and macro edges (real acquire/release/wakeup): d2 = 2 txns, all intersecting key-set pairs of a 3-key pool x all start/commit options incl. ties x {1 slot, 2 slots with a collision}; d3 = sampled 3-txn configurations; d4 = sampled 4 txns x <=3 keys (4-key pool); dr = physical timestamps, 6 keys, in-line + external recycle; w = random walks 3-6 txns, 1-4 slots; d3x (thorough) = 3 txns exhaustively (all key-set triples <=2 keys, starts 1<2<3, commits {none,start+1,4}, 1/2 slots); sc/cap = scripts through the REAL LatchesScheduler (Lock/UnLock/Close, recycle trigger, 130 pending unlocks against the 100-slot channel) compared with the model at every quiescent point (exact quiescence from runtime.Stack). distinct_nontrivial = distinct (op kind, result, resulting full state dump) edges whose resulting state has a waiter, a stale lock or a pending wake-up. DFS cases truncated by the node budget: %d" % stats.get("trunc", -1),
+               rule="DFS with state hashing over every interleaving of the atomic steps (thread acquireSlot, unlock, scheduler pop / releaseSlot / wake-up acquireSlot, recycle) and macro edges (real acquire/release/wakeup): d2 = 2 txns, all intersecting key-set pairs of a 3-key pool x all start/commit options incl. ties x {1 slot, 2 slots with a collision}; d3 = sampled 3-txn configurations; d4 = sampled 4 txns x <=3 keys (4-key pool); dr = physical timestamps, 6 keys, in-line + external recycle; w = random walks 3-6 txns, 1-4 slots; d3x (thorough) = 3 txns exhaustively (all key-set triples <=2 keys, starts 1<2<3, commits {none,start+1,4}, 1/2 slots); sc/cap = scripts through the REAL LatchesScheduler (Lock/UnLock/Close, recycle trigger, 130 pending unlocks against the 100-slot channel) compared with the model at every quiescent point (exact quiescence from runtime.Stack); t-* = consumer tier: real KVTxn.Commit over mocktikv with EnableTxnLocalLatches (1-8 slots), 3-4 optimistic transactions with overlapping key sets, stale at first key / later key / on wake-up behind a directly held latch; oracle caller_contract (every Commit returns, no latch held when nobody is in flight) + every dump reproduced by a contract-following model client. distinct_nontrivial = distinct (op kind, result, resulting full state dump) edges whose resulting state has a waiter, a stale lock or a pending wake-up. DFS cases truncated by the node budget: %d" % stats.get("trunc", -1),
                samples=samples[:10], traces_validated_against_impl=stats.get("edges", 0),
                input_distribution=classes, oracle_passes=passes, model_mismatches=len(mism), oracle_failures=len(pfails),
                stress_rounds=[" ".join(s) for s in stress],
-               scheduler_script_actions=script_stats.get("edges", 0))
+               scheduler_script_actions=script_stats.get("edges", 0),
+               consumer_commit_actions=consumer_stats.get("edges", 0))
     rc = v.finish()
     vlib.write_evidence(PID, cov, t0, violations=len(v.violations), level="proof",
                         assumptions=["keys of one Lock are distinct (txn.go passes the mutation keys of a memdb)", "byte order of the driver's keys = order of key ids",
